@@ -151,6 +151,22 @@ def u_b_variances(ctx):
                 e.prove("%s:bulmer[%d] is NaN only when the genic variance is zero" % (tag, k), R(va[k]) == 0)
             else:
                 e.prove("%s:bulmer[%d]==var_A/var_a" % (tag, k), z3.And(R(va[k]) != 0, R(bul[k]) * R(va[k]) == R(vA[k])))
+        # the numpy-level forms with an explicit ploidy (tetraploid): genic variance scales with ploidy^2, the ratio uses THAT variance
+        Z4 = barr.fresh("z4", (n, p), "int8", 0, 4)
+        pf = barr.fresh("pf", (p,), "float64")
+        for j in range(p):
+            e.assume(z3.And(R(pf[j]) >= 0, R(pf[j]) <= 1))
+        va4 = ma.var_a_numpy(pf, 4)
+        vA4 = ma.var_A_numpy(Z4)
+        bul4 = ma.bulmer_numpy(Z4, pf, 4)
+        for k in range(t):
+            spec_a4 = 16 * sum((R(ua[j, k]) * R(ua[j, k]) * R(pf[j]) * (1 - R(pf[j])) for j in range(p)), z3.RealVal(0))
+            e.prove("%s:var_a_numpy(p, ploidy=4)[%d]==16*sum u^2 p(1-p)" % (tag, k), R(va4[k]) == spec_a4)
+            if isinstance(bul4[k], float) and bul4[k] != bul4[k]:
+                e.prove("%s:bulmer_numpy(Z, p, ploidy=4)[%d] is NaN only when the tetraploid genic variance is zero" % (tag, k), spec_a4 == 0)
+            else:
+                e.prove("%s:bulmer_numpy(Z, p, ploidy=4)[%d]==var_A_numpy(Z)/var_a_numpy(p, 4)" % (tag, k),
+                        z3.And(spec_a4 != 0, R(bul4[k]) * spec_a4 == R(vA4[k])))
         return "ok"
     shapes = [(1, 1, 1), (2, 1, 1), (2, 2, 1)] + ([(3, 1, 2), (2, 2, 2)] if ctx.tier == "thorough" else [])    # (3, 2, 1): the Bulmer ratio stays `unknown`
     modeb.run_shapes(ctx, "variances", shapes, body, timeout_ms=20000)
